@@ -199,6 +199,12 @@ def run(ctx):
     ub = vlib.tlc(ctx, "agwpe", "AgwpeMux", "AgwpeMux_unbuffered.cfg")
     if ub.violated != "DemuxLive":
         raise vlib.Undecided("the deviation of AgwpeMux.tla (one-shot requests without room for their frame) no longer violates DemuxLive")
+    # registrations while a delivery is in progress (the port's inbound handler is a client of the demux it registers on): the
+    # code accepts them, the code before fix 4ae63af did not and the two could wait for each other for ever
+    vlib.design_check(ctx, "agwpe", "AgwpeReg", "AgwpeReg_code.cfg")
+    rb = vlib.tlc(ctx, "agwpe", "AgwpeReg", "AgwpeReg_before.cfg")
+    if rb.violated != "NoEmbrace":
+        raise vlib.Undecided("AgwpeReg_before.cfg no longer violates NoEmbrace")
     obs = vlib.tlc(ctx, "agwpe", "AgwpeTx", "AgwpeTx_liveness.cfg")
     ctx.notes.append("AgwpeTx_liveness.cfg: WriteReturns %s (observation, not part of C13: a TNC that transmits a frame before the next poll is never "
                      "seen with an outstanding frame)" % ("violated" if obs.error else "holds"))
